@@ -1,6 +1,7 @@
 import RV.C20.Model
 import RV.C20.Text
 import RV.C20.Rewrite
+import RV.C20.Conn
 import RV.Base.Proto
 /-
   C20 driver.  Terms and graph names are naturals owned by the harness (blank nodes 900–999,
@@ -40,6 +41,18 @@ import RV.Base.Proto
     decode q g cps              -> reader applied to a query text sent with default-graph-uri g (`-` none); a pattern
                                    query with a trailing VALUES block is shown joined with its row
     ing g cps                   -> `_insert_named_graph(text, <g>)` as modelled in RV/C20/Rewrite.lean (code points)
+
+  Transport layer (RV/C20/Conn.lean).
+    conn method qpath upath fmt extra auth
+                                -> ok      (connector configuration: GET|POST|POST_FORM, the two endpoint URLs (code
+                                   points), returnFormat, extra = 0..3 (bit 0: params={"x-extra":"1"}, bit 1:
+                                   headers={"X-Extra":"1"}), auth = `-` or the Authorization value (code points))
+    nop method:M | nop format:F -> ok      (the `method` property / `returnFormat` attribute switched mid-history)
+    senthttp                    -> the HTTP requests `SPARQLConnector.query/update` assembles for the requests of the LAST
+                                   operation, each READ BACK by the protocol reader `serverRead`:
+                                   `Q|U via path a:<accept types, sorted> p:<k=v&… sorted, code points>`; `-` = none
+    asm method path fmt extra auth q|u dg cps
+                                -> `<url code points> <body bytes|->` of the request assembled for that text
 -/
 open RV RV.C20 RV.Proto
 
@@ -117,6 +130,9 @@ structure St where
   pend : List (Option Str) := []
   lastSent : List String := []
   lastText : List (Option Str) := []
+  /-- per request of the last operation: is it an update, the graph argument -/
+  lastReq : List (Bool × GName) := []
+  conn : Conn := ⟨.GET, [], [], [], [], []⟩
 
 def cps? (w : String) : Option Str :=
   if w = "_" then some [] else
@@ -291,7 +307,13 @@ def runOp (st : St) (op : Op) (slice : Option (TPat × GName × Option Nat × Op
     | _ => []
   let pend' := if flushed || isRollback then [] else if r.readOnly then [] else queuedT
   let reqs := upd ++ qry
-  ({ st with r := r', pend := pend', lastSent := reqs.map (·.1), lastText := reqs.map (·.2) }, showOut out)
+  let qg : GName := match slice with
+    | some (_, g, _, _, _) => g
+    | none => match op with
+      | .read (.triples _ g) | .read (.contains _ g) | .read (.len g) => g
+      | _ => none
+  let lreq := upd.map (fun _ => (true, (none : GName))) ++ qry.map (fun _ => (false, qg))
+  ({ st with r := r', pend := pend', lastSent := reqs.map (·.1), lastText := reqs.map (·.2), lastReq := lreq }, showOut out)
 
 def doOp (st : St) (o : Option Op) : St × String :=
   match o with
@@ -315,11 +337,53 @@ def decodeQuery (st : St) (g : Option Str) (txt : Str) : String :=
     | some (q, bs) => showQueryT st (idOfG st g) (q.joinRow bs)
     | none => "Q?"
 
+
+/-! ### transport layer glue -/
+
+def cmethod? (w : String) : Option CMethod :=
+  if w = "GET" then some .GET else if w = "POST" then some .POST else if w = "POST_FORM" then some .POST_FORM else none
+
+def mkConn (m : CMethod) (qp up : Str) (fmt : String) (extra : Nat) (auth : Option Str) : Conn :=
+  { method := m, queryEndpoint := qp, updateEndpoint := up,
+    accept := (", ".intercalate (responseMimeTypes fmt)).toList,
+    params := if extra % 2 = 1 then [("x-extra".toList, "1".toList)] else [],
+    -- `kwargs["headers"]`, then `setdefault("headers", {})` / `.update({"Authorization": …})` of `__init__`
+    headers := dupdate (if extra / 2 % 2 = 1 then [("X-Extra".toList, "1".toList)] else [])
+                 (match auth with | some a => [("Authorization".toList, a)] | none => []) }
+
+def showKV (kv : Str × Str) : String := showCps kv.1 ++ "=" ++ showCps kv.2
+
+def showProto (p : ProtoReq) : String :=
+  let k := match p.kind with | .query => "Q" | .update => "U"
+  let v := match p.via with | .get => "get" | .form => "form" | .direct => "direct"
+  let acc := match p.accept with
+    | some a => ",".intercalate (sortStrs ((String.ofList a).splitOn ", "))
+    | none => "-"
+  let hs := "&".intercalate (sortStrs (p.params.map showKV))
+  s!"{k} {v} {String.ofList p.path} a:{acc} p:{hs}"
+
+def showHttp (st : St) (isU : Bool) (g : GName) (txt : Option Str) : String :=
+  let t := txt.getD ['?']
+  let r := if isU then st.conn.update t none none
+    else st.conn.query t (match gOf st g with | some (some i) => .iri i | _ => .none)
+  match r with
+  | .error _ => "no-endpoint"
+  | .ok r => match serverRead r with
+    | some p => showProto p
+    | none => "unreadable"
+
+def zip3 : List (Bool × GName) → List (Option Str) → List ((Bool × GName) × Option Str)
+  | a :: as, b :: bs => (a, b) :: zip3 as bs
+  | _, _ => []
+
+def showBytes (bs : List Nat) : String :=
+  if bs.isEmpty then "_" else ",".intercalate (bs.map toString)
+
 def step (st : St) : List String → St × String
   | ["reset", a, d, h, ro] =>
     match flag? a, flag? d, flag? h, flag? ro with
     | some a, some d, some h, some ro =>
-      ({ st with r := Remote.init ⟨[], []⟩ a d h ro, pend := [], lastSent := [], lastText := [] }, "ok")
+      ({ st with r := Remote.init ⟨[], []⟩ a d h ro, pend := [], lastSent := [], lastText := [], lastReq := [] }, "ok")
     | _, _, _, _ => (st, "bad-op")
   | ["vocab", n, "I", c] =>
     match n.toNat?, cps? c with
@@ -395,9 +459,36 @@ def step (st : St) : List String → St × String
       | some o => runOp st (.read .opaque) (some (p, g, l, f, o))
       | none => (st, "bad-op")
     | _, _, _, _ => (st, "bad-op")
+  | ["conn", m, qp, up, fmt, ex, au] =>
+    match cmethod? m, cps? qp, cps? up, ex.toNat?, optCps? au with
+    | some m, some qp, some up, some ex, some au => ({ st with conn := mkConn m qp up fmt ex au }, "ok")
+    | _, _, _, _, _ => (st, "bad-op")
+  | ["senthttp"] =>
+    (st, if st.lastReq.isEmpty then "-"
+         else " | ".intercalate ((zip3 st.lastReq st.lastText).map (fun x => showHttp st x.1.1 x.1.2 x.2)))
+  | ["asm", m, pth, fmt, ex, au, k, dg, c] =>
+    match cmethod? m, cps? pth, ex.toNat?, optCps? au, optCps? dg, cps? c with
+    | some m, some pth, some ex, some au, some dg, some txt =>
+      let cn := mkConn m pth pth fmt ex au
+      let r := if k = "u" then cn.update txt none none
+        else cn.query txt (match dg with | some i => .iri i | none => .none)
+      match r with
+      | .ok r => (st, showCps r.url ++ " " ++ (match r.data with | some b => showBytes b | none => "-"))
+      | .error _ => (st, "no-endpoint")
+    | _, _, _, _, _, _ => (st, "bad-op")
+  | ["nop", arg] =>
+    -- the `method` property / `returnFormat` attribute switched; anything else neither reads nor writes
+    let st := { st with lastSent := [], lastText := [], lastReq := [] }
+    if arg.startsWith "method:" then
+      match cmethod? (String.ofList (arg.toList.drop 7)) with
+      | some m => ({ st with conn := { st.conn with method := m } }, "ok")
+      | none => (st, "bad-op")
+    else if arg.startsWith "format:" then
+      ({ st with conn := { st.conn with accept := (", ".intercalate (responseMimeTypes (String.ofList (arg.toList.drop 7)))).toList } }, "ok")
+    else (st, "ok")
   | ["nop"] =>
     -- an API call that neither reads nor writes (re-open, close, bind, switching method / format)
-    ({ st with lastSent := [], lastText := [] }, "ok")
+    ({ st with lastSent := [], lastText := [], lastReq := [] }, "ok")
   | ["obs"] => (st, showQuads st.r.ep.quads ++ " | " ++ showNames st.r.ep.graphs)
   | ["queue"] => (st, toString st.r.edits.length)
   | _ => (st, "bad-op")
